@@ -110,6 +110,8 @@ def add_features_calculator(mod: fx.GraphModule, extra_rules: List[Callable] = [
             # TODO: add support for no dim by looking at which dimensions are 1
             if dim is None:
                 raise ValueError("Squeeze without dim not supported")
+            # a negative dim counts from the end of the *output* shape
+            dim = dim + len(input_shape) + 1 if dim < 0 else dim
             if dim == 0:  # batch size
                 batch_size = input_shape[0]
                 n.meta['features_calculator'] = ConstFeaturesCalculator(batch_size)
@@ -214,6 +216,7 @@ def associate_input_features(mod: fx.GraphModule):
             dim = try_get_args(prev, mod, 1, 'dim', None)
             if dim is None:
                 raise ValueError("Unsqueeze without dim not supported")
+            dim = dim + len(input_shape) + 1 if dim < 0 else dim
             if dim == 0 or dim == 1:
                 n.meta['input_features_set_by'] = prev
             else:
